@@ -31,7 +31,7 @@ open Mpir
 theorem dcDivappr_floor2_small :
     let N := 0x4000000000000000000000000000000000000000000000006fffffffffffffffffffffffffffffff900000000000000000000000000000000000000000000000000000000000000000000000000000000
     let D := 0x800000000000000000000000000000000000000000000000ffffffffffffffffffffffffffffffffffffffffffffffffffffffffffffffff
-    let r := dcDivappr 6 3 sbLeaf 13 7 N D
+    let r := dcDivappr false 6 3 sbLeaf 13 7 N D
     B ^ 7 / 2 ≤ D ∧ D < B ^ 7 ∧ N < B ^ 13 ∧ r.ok = true ∧ r.qh = 0 ∧ r.q = N / D + 2 := by
   decide +kernel
 
@@ -41,7 +41,7 @@ theorem dcDivappr_floor2_small :
 theorem dcDivappr_floor2 :
     let D := 2 ^ 63 * B ^ 86 + B ^ 44 - 1
     let N := 7 * B ^ 43 * D + B ^ 130 / 2 - 7 * (B ^ 42 - 1) * B ^ 43
-    let r := dcDivappr 50 43 sbLeaf 173 87 N D
+    let r := dcDivappr false 50 43 sbLeaf 173 87 N D
     B ^ 87 / 2 ≤ D ∧ D < B ^ 87 ∧ N < B ^ 173 ∧ r.ok = true ∧ r.qh = 0 ∧ r.q = N / D + 2 := by
   decide +kernel
 
@@ -54,8 +54,24 @@ theorem dcDivappr_far_off :
     let N1 := 7 * B ^ 43 * D1 + B ^ 130 / 2 - 7 * (B ^ 42 - 1) * B ^ 43
     let D := D1 * B ^ 86 + (B ^ 86 - 1)
     let N := N1 * B ^ 172
-    let r := dcDivappr 50 43 sbLeaf 345 173 N D
+    let r := dcDivappr false 50 43 sbLeaf 345 173 N D
     B ^ 173 / 2 ≤ D ∧ D < B ^ 173 ∧ N < B ^ 345 ∧ r.ok = true ∧ r.qh = 0 ∧ N / D + B ^ 85 < r.q := by
+  decide +kernel
+
+/-- The repaired C (model parameter `rep` = true; findings/dc_divappr_q_fix.diff: in the rare case :78-82 the sign of the
+    three remainder limbs decides between B^qn - 1 and B^qn - 2, and :105 is a `while`) returns ⌊N/D⌋ + 1 and ⌊N/D⌋ + 1
+    on the two inputs above.  (The general statement — result ∈ {⌊N/D⌋, ⌊N/D⌋ + 1} for every size, by the invariant
+    "the truncated remainder t(Q) = ⌊W/B^(n-1)⌋ - Σ_j q_j·⌊D/B^(n-1-j)⌋ left in np[dn-2 .. dn] is ≥ 0 on every exit" —
+    is not proved yet; the correspondence run measured only 0 and +1 on 281 000 generated inputs and on the nested
+    constructions at two and three recursion levels.) -/
+theorem dcDivappr_repaired_examples :
+    let D1 := 2 ^ 63 * B ^ 86 + B ^ 44 - 1
+    let N1 := 7 * B ^ 43 * D1 + B ^ 130 / 2 - 7 * (B ^ 42 - 1) * B ^ 43
+    let D := D1 * B ^ 86 + (B ^ 86 - 1)
+    let N := N1 * B ^ 172
+    let r1 := dcDivappr true 50 43 sbLeaf 173 87 N1 D1
+    let r := dcDivappr true 50 43 sbLeaf 345 173 N D
+    r1.ok = true ∧ r1.qh = 0 ∧ r1.q = N1 / D1 + 1 ∧ r.ok = true ∧ r.qh = 0 ∧ r.q = N / D + 1 := by
   decide +kernel
 
 end Mpir.DcDivappr
